@@ -152,7 +152,7 @@ func main() {
 	if rep.Thorough() {
 		rl, pl = 7, 6
 	}
-	rep.Rule = fmt.Sprintf("all right strings up to length %d over {a,B,+,*,/,;,space} x all paths up to length %d over {a,A,b,/,space}, through the public path (User.CopyFrom + ValidatePermission, pull and push, admin and non-admin) against a reference matcher written from the statement; pairs whose right or path the guide does not define (doubled slashes, blanks inside segments, '*' not last, '+' inside a literal) are judged in a second pass under 32 readings of the guide (one length shorter in the quick tier) and only when all readings agree; distinct = distinct judged (right, path) pairs", rl, pl)
+	rep.Rule = fmt.Sprintf("all right strings up to length %d over {a,B,+,*,/,;,space} x all paths up to length %d over {a,A,b,/,space}, through the public path (User.CopyFrom + ValidatePermission, pull and push, admin and non-admin) against a reference matcher written from the statement; pairs whose right or path the guide does not define (doubled slashes, blanks inside segments, '*' not last, '+' inside a literal) are judged in a second pass under 32 readings of the guide (rights up to 4 / paths up to 4 in the quick tier, 5 / 5 in the thorough tier) and only when all readings agree; distinct = distinct judged (right, path) pairs", rl, pl)
 	rights := allStrings("aB+*/; ", rl)
 	paths := allStrings("aAb/ ", pl)
 	type pinfo struct {
@@ -210,10 +210,13 @@ func main() {
 	})
 	// second pass: inputs the guide leaves open are judged whenever every reasonable reading agrees
 	var judged2, skipped2 int64
-	rights2, paths2 := rights, paths
-	if !rep.Thorough() { // the 32-reading pass is 30x dearer per pair: one length less in the quick tier
-		rights2, paths2 = allStrings("aB+*/; ", rl-1), allStrings("aAb/ ", pl-1)
+	// the 32-reading pass is 30x dearer per pair: lengths (4,4) in the quick tier, (5,5) in the thorough tier
+	r2, p2 := 4, 4
+	if rep.Thorough() {
+		r2, p2 = 5, 5
 	}
+	rights2, paths2 := allStrings("aB+*/; ", r2), allStrings("aAb/ ", p2)
+	rep.Extra["second_pass_lengths"] = []int{r2, p2}
 	rep.Parallel(len(rights2), func(ri int) {
 		right := rights2[ri]
 		_, wf := parseRight(right)
